@@ -1,13 +1,222 @@
-"""C12 -- placeholder until the check is built"""
+"""C12 -- level crossings are exact"""
+
+import math
+
+from .. import core, oracle_regrid
+
 PROPERTY = 'C12'
 LEVEL = 'exploration'
-SHARDS = {'quick': 1, 'thorough': 1}
-RULE = 'not built yet'
+SHARDS = {'quick': 4, 'thorough': 16}
+RULE = (
+    'G-intervals series (2-9 samples; rising, falling, non-monotone, flat pairs; samples exactly on a level as a '
+    'local extremum and in passing, one ulp beside a level; abscissae starting at 0, 7.3 and 1.7e9 with regular and '
+    'irregular spacing; steps 1, .5, 2, .1, .2, .3, 2.5, 5 and random) handed to the real regrid.regrid; every item '
+    'yielded is aligned (sequence alignment, tie-ambiguous levels optional) with the integers k such that k*step '
+    'lies in [lo, hi) of each consecutive pair, decided in exact Fraction arithmetic, and each abscissa must lie in '
+    'its bracket and on the chord within brentq\'s documented tolerance.  build_head_mapping: one entry per series and '
+    'level, equal to the mean of that series\' crossings.  Non-trivial: series with >= 1 sample exactly on a level '
+    'and >= 1 direction change; distinct by (quantised shape, step).'
+)
+ASSUMPTIONS = [
+    'tie band: y/step within 4 eps of an integer and not exactly representable -> either outcome accepted',
+    'abscissa residual tolerance: 64 eps max(1,|Y|) + |slope| (2e-12 + 4 eps |x|) * 2 (brentq xtol=2e-12, rtol=4 eps)',
+]
+SIZES = {'quick': dict(n=10000, hm=500), 'thorough': dict(n=400000, hm=16000)}
+REQUIRED = {
+    tier: {
+        'regrid-calls': 1000,
+        'crossings-must': 10000,
+        'series-with-sample-on-level': 500,
+        'series-with-one-ulp-beside-level': 200,
+        'series-with-flat-pair': 200,
+        'series-with-epoch-abscissae': 500,
+        'series-nonmonotone': 500,
+        'pairs-falling': 1000,
+        'head-mappings-checked': 100,
+        'empty-series': 1,
+    }
+    for tier in ('quick', 'thorough')
+}
+MIN_NONTRIVIAL = {'quick': 1000, 'thorough': 10000}
+STEPS = [1.0, 0.5, 2.0, 0.1, 0.2, 0.3, 2.5, 5.0]
+
+
+def gen_series(rng):
+    import numpy as np
+
+    m = rng.randint(2, 9)
+    x0 = rng.choice([1.7e9, 0.0, 7.3, float(rng.randint(10 ** 9, 2 * 10 ** 9))])
+    dx = rng.choice(['1800', '1200', 'irregular', 'third'])
+    incs = []
+    for _ in range(m - 1):
+        if dx == '1800':
+            incs.append(1800.0)
+        elif dx == '1200':
+            incs.append(1200.0)
+        elif dx == 'third':
+            incs.append(1 / 3)
+        else:
+            incs.append(rng.choice([rng.uniform(0.01, 1000), 1800.0, 1200.0, 1 / 3]))
+    x = np.cumsum([x0] + incs)
+    step = rng.choice(STEPS + [rng.uniform(0.05, 7)])
+    shape = rng.choice(['random', 'rising', 'falling', 'random', 'zigzag'])
+    flags = set()
+
+    def val(prev):
+        r = rng.random()
+        k = rng.randint(-12, 12)
+        if r < 0.25:
+            flags.add('on-level')
+            return k * step
+        if r < 0.35:
+            flags.add('ulp')
+            return float(np.nextafter(k * step, rng.choice([-1e9, 1e9])))
+        if r < 0.42 and prev is not None:
+            flags.add('flat')
+            return prev
+        if r < 0.5:
+            return rng.uniform(-2500, 100)  # field-like magnitudes, many crossings
+        return rng.uniform(-12, 12) * step
+
+    y = []
+    for i in range(m):
+        v = val(y[-1] if y else None)
+        y.append(v)
+    if shape == 'rising':
+        y.sort()
+    elif shape == 'falling':
+        y.sort(reverse=True)
+    elif shape == 'zigzag':
+        y = [v if i % 2 == 0 else v + rng.choice([-3, 3]) * step for i, v in enumerate(y)]
+    # bound the number of crossings
+    span = max(y) - min(y)
+    if span / step > 60:
+        mid = 0.5 * (max(y) + min(y))
+        y = [mid + (v - mid) * (60 * step / span) for v in y]
+    return x, np.array(y, dtype=float), step, flags
+
+
+def classify_series(x, y, step, flags):
+    out = set(flags)
+    d = [b - a for a, b in zip(y[:-1], y[1:])]
+    if any(a > 0 for a in d) and any(a < 0 for a in d):
+        out.add('nonmonotone')
+    if any(a == 0 for a in d):
+        out.add('flat')
+    if len(x) and x[0] > 1e9:
+        out.add('epoch')
+    return out
+
+
+def check_regrid_case(ctx, x, y, step, flags=(), source='generated'):
+    import numpy as np
+    import spowtd.regrid as rg
+
+    rec = ctx.rec
+    rec.case()
+    case = {'kind': 'regrid', 'x': [float(v) for v in x], 'y': [float(v) for v in y], 'step': float(step)}
+    try:
+        out = list(rg.regrid(np.asarray(x, dtype=float), np.asarray(y, dtype=float), step))
+    except Exception as exc:  # pylint: disable=broad-except
+        desc = core.describe_exception(exc)
+        if desc['origin'] == 'harness':
+            rec.inconclusive_because('harness exception calling regrid: {}'.format(desc))
+            return
+        rec.violation('regrid-raises:' + desc['type'], {'exception': desc}, case, 'regrid')
+        return
+    rec.hit('regrid-calls')
+    errs, info = oracle_regrid.check([float(v) for v in x], [float(v) for v in y], float(step), out)
+    rec.hit('crossings-must', info['must'])
+    rec.hit('crossings-tie-ambiguous', info['maybe'])
+    rec.hit('crossings-reported', len(out))
+    cls = classify_series(x, y, step, flags)
+    for name, label in (('on-level', 'series-with-sample-on-level'), ('ulp', 'series-with-one-ulp-beside-level'),
+                        ('flat', 'series-with-flat-pair'), ('epoch', 'series-with-epoch-abscissae'),
+                        ('nonmonotone', 'series-nonmonotone')):
+        if name in cls:
+            rec.hit(label)
+    rec.hit('pairs-falling', sum(1 for a, b in zip(y[:-1], y[1:]) if b < a))
+    rec.hit('pairs-rising', sum(1 for a, b in zip(y[:-1], y[1:]) if b > a))
+    for key, w in errs:
+        rec.violation(key, w, case, 'regrid')
+    if 'on-level' in cls and 'nonmonotone' in cls:
+        rec.mark_nontrivial(core.digest(([round(v / step, 3) for v in y], step, len(x))))
+        rec.sample({'x': case['x'], 'y': case['y'], 'step': step, 'reported': [(int(k), float(v)) for k, v in out[:8]]})
+    return out
+
+
+def check_head_mapping_case(ctx, rng):
+    """build_head_mapping: per series and level the mean of its crossings"""
+    import numpy as np
+    import spowtd.fit_offsets as fo
+    import spowtd.regrid as rg
+
+    rec = ctx.rec
+    rec.case()
+    series = []
+    step = None
+    for _ in range(rng.randint(1, 5)):
+        x, y, st, _ = gen_series(rng)
+        step = step or st
+        series.append((x, y))
+    case = {'kind': 'head_mapping', 'series': [[list(map(float, x)), list(map(float, y))] for x, y in series], 'step': step}
+    try:
+        hm = fo.build_head_mapping(series, step)
+    except Exception as exc:  # pylint: disable=broad-except
+        desc = core.describe_exception(exc)
+        if desc['origin'] == 'harness':
+            rec.inconclusive_because('harness exception calling build_head_mapping: {}'.format(desc))
+            return
+        rec.violation('build_head_mapping-raises:' + desc['type'], {'exception': desc}, case, 'head_mapping')
+        return
+    exp = {}
+    for sid, (x, y) in enumerate(series):
+        per = {}
+        for k, xt in rg.regrid(x, y, step):  # regrid itself is checked above
+            per.setdefault(int(k), []).append(float(xt))
+        for k, xs in per.items():
+            exp.setdefault(k, {})[sid] = math.fsum(xs) / len(xs)
+    got = {}
+    dup = False
+    for k, seq in hm.items():
+        for sid, t in seq:
+            if sid in got.setdefault(int(k), {}):
+                dup = True
+            got[int(k)][sid] = float(t)
+    ok = not dup and set(got) == set(exp) and all(set(got[k]) == set(exp[k]) for k in exp)
+    if ok:
+        for k in exp:
+            for sid in exp[k]:
+                if abs(got[k][sid] - exp[k][sid]) > 1e-9 * max(1.0, abs(exp[k][sid])):
+                    ok = False
+    if not ok:
+        rec.violation('head-mapping-is-not-the-mean-of-crossings', {'got': str(sorted(got.items()))[:600], 'expected': str(sorted(exp.items()))[:600]}, case, 'head_mapping')
+    rec.hit('head-mappings-checked')
+    if any(len(v) > 1 for v in exp.values()):
+        rec.hit('head-mappings-with-shared-levels')
 
 
 def run(ctx):
-    ctx.rec.inconclusive_because('check not built yet')
+    import numpy as np
+
+    s = SIZES[ctx.tier]
+    rng = ctx.rng('regrid')
+    for _ in range(ctx.share(s['n'])):
+        x, y, step, flags = gen_series(rng)
+        check_regrid_case(ctx, x, y, step, flags)
+    # degenerate inputs
+    out = check_regrid_case(ctx, np.array([]), np.array([]), 1.0)
+    if out == []:
+        ctx.rec.hit('empty-series')
+    rng = ctx.rng('head-mapping')
+    for _ in range(ctx.share(s['hm'])):
+        check_head_mapping_case(ctx, rng)
 
 
 def replay(ctx, case, module=None):
-    ctx.rec.inconclusive_because('check not built yet')
+    import numpy as np
+
+    if case.get('kind') == 'regrid':
+        check_regrid_case(ctx, np.array(case['x']), np.array(case['y']), case['step'])
+    else:
+        ctx.rec.inconclusive_because('replay of head_mapping cases regenerates from the seed; rerun the tier')
